@@ -780,3 +780,65 @@ theorem vt_roundtrip (init : List Command) (last : Command) (hi : ∀ c ∈ init
   rw [this]; omega
 
 end DpapiNg.C12
+
+namespace DpapiNg.C12
+open DpapiNg DpapiNg.Rpc
+
+/-- one protocol version of a bind_nak: two octets -/
+def verPack (v : Nat × Nat) : R Bytes := do let p ← le v.1 1; let q ← le v.2 1; pure (p ++ q)
+
+theorem verPack_eq : (fun (v : Nat × Nat) => match v with | (x, y) => (do let p ← le x 1; let q ← le y 1; pure (p ++ q) : R Bytes)) = verPack := by
+  funext v; obtain ⟨x, y⟩ := v; rfl
+
+theorem versions_rt (vs : List (Nat × Nat)) (wf : ∀ v ∈ vs, v.1 < 256 ∧ v.2 < 256) :
+    ∃ bs, vs.mapM verPack = .ok bs ∧ bs.flatten.length = 2 * vs.length ∧
+      ∀ rest, versionsUnpack vs.length (bs.flatten ++ rest) = .ok vs := by
+  induction vs with
+  | nil => exact ⟨[], rfl, rfl, fun _ => rfl⟩
+  | cons v vs ih =>
+    obtain ⟨x, y⟩ := v
+    obtain ⟨bs, h1, h2, h3⟩ := ih (fun z hz => wf z (List.mem_cons_of_mem _ hz))
+    obtain ⟨wx, wy⟩ := wf (x, y) List.mem_cons_self
+    simp only at wx wy
+    have hv : verPack (x, y) = .ok [x, y] := by
+      simp [verPack, le_ok _ 1 (show x < 256 ^ 1 by omega), le_ok _ 1 (show y < 256 ^ 1 by omega), toLE1 _ wx, toLE1 _ wy, bind, Except.bind, pure, Except.pure]
+    refine ⟨[x, y] :: bs, by simp [List.mapM_cons, hv, h1, bind, Except.bind, pure, Except.pure], by simp [h2]; omega, fun rest => ?_⟩
+    simp only [List.flatten_cons, List.cons_append, List.nil_append, List.length_cons, versionsUnpack, at_, Py.index,
+      List.getElem?_cons_zero, List.getElem?_cons_succ, bind, Except.bind, List.drop_succ_cons, List.drop_zero, h3, pure, Except.pure]
+
+/-- BIND_NAK: decode(encode p) = p for every protocol-version list (alignment padding skipped) -/
+theorem bindNak_roundtrip (h : Header) (wf : h.WF) (reason : Nat) (vs : List (Nat × Nat))
+    (hpt : h.packetType = 13) (hal : h.authLen = 0) (h1 : reason < 65536) (hvs : ∀ v ∈ vs, v.1 < 256 ∧ v.2 < 256) (hn : vs.length < 256) :
+    ∃ b, pduPack ⟨h, none, .bindNak reason vs⟩ = .ok b ∧
+      (h.fragLen = b.length → pduUnpack b = .ok ⟨h, none, .bindNak reason vs⟩) := by
+  obtain ⟨hb, hh, hl, _⟩ := header_roundtrip h wf []
+  obtain ⟨bs, hbs, hbl, hbu⟩ := versions_rt vs hvs
+  obtain ⟨tb, htb, hframe⟩ := unpack_frame h wf none trivial hb
+    (Py.toLE reason 2 ++ ([vs.length] ++ bs.flatten) ++ Py.zeros (Py.negMod (2 + ([vs.length] ++ bs.flatten).length) 4)) hh hal
+  cases htb
+  unfold pduPack
+  simp only [verPack_eq]
+  simp only [hh, bind, Except.bind, le_ok _ 2 h1, hbs, le_ok _ 1 (show vs.length < 256 ^ 1 by omega), toLE1 _ hn, pure, Except.pure]
+  refine ⟨_, rfl, fun hf => ?_⟩
+  have hf' : h.fragLen = 16 + (Py.toLE reason 2 ++ ([vs.length] ++ bs.flatten) ++ Py.zeros (Py.negMod (2 + ([vs.length] ++ bs.flatten).length) 4)).length + ([] : Bytes).length := by
+    rw [hf]; simp [hl]
+  have e := hframe hf'
+  simp only [List.append_assoc, List.append_nil] at e ⊢
+  rw [e, hpt]
+  generalize hA : Py.toLE reason 2 = A
+  have lA : A.length = 2 := by rw [← hA]; simp
+  have vA : Py.fromLE A = reason := by rw [← hA]; exact Py.fromLE_toLE _ 2 (by omega)
+  unfold bodyUnpack at_ Py.index
+  have n1 : ¬ ((13 : Nat) = 11 ∨ (13 : Nat) = 14) := by decide
+  have n2 : ¬ ((13 : Nat) = 12 ∨ (13 : Nat) = 15) := by decide
+  simp only [n1, n2, if_false, if_true]
+  generalize hZ : Py.zeros (Py.negMod (2 + ([vs.length] ++ bs.flatten).length) 4) = Z
+  have s1 : Py.sliceN (A ++ ([vs.length] ++ (bs.flatten ++ Z))) 0 2 = A := by slices0 [lA]
+  have s2 : (A ++ ([vs.length] ++ (bs.flatten ++ Z)))[2]? = some vs.length := by
+    rw [List.getElem?_append_right (by omega)]; simp [lA]
+  have s3 : (A ++ ([vs.length] ++ (bs.flatten ++ Z))).drop 3 = bs.flatten ++ Z := by
+    have : (A ++ [vs.length]).length = 3 := by simp [lA]
+    rw [← List.append_assoc, ← this, List.drop_left]
+  simp only [s1, s2, s3, vA, hbu Z, bind, Except.bind, pure, Except.pure]
+
+end DpapiNg.C12
